@@ -236,7 +236,7 @@ class Session(object):
         line = render(ev)
         try:
             if ev["t"] == "reload":
-                newcfg = Config([tuple(x) for x in ev["services"]], self.config.timeout,
+                newcfg = Config([tuple(x) for x in ev["services"]], ev["timeout"] if "timeout" in ev else self.config.timeout,
                                 ev["rules"] if ev.get("rules") is not None else self.config.rules, self.config.use_class)
                 newcfg.modules = self.config.modules
                 newcfg.logs = self.config.logs
